@@ -1,13 +1,26 @@
 import QrlModel.Model.Dilithium
 import QrlModel.Props.C12
+import QrlModel.Proofs.DilVS
 /-! # C03 — every Dilithium signature and sealed message verifies
 
-Proved here: the sealed-message framing for every message (including the empty one), for arbitrary XOFs;
-the coefficient-level reason the verifier recomputes the signer's w1 (`hint_correct`, all of ℤ_q × the
-ranges the three rejection tests leave). `verify_sign_partial` names what is still missing for the
-end-to-end theorem (linearity of the NTT-domain computation); that part rests on the correspondence run:
-Verify(Sign(m)), Open(Seal(m)), Extract* on the real code for thousands of (seed, message) pairs plus the
-boundary corpus (rejection bounds met with equality), byte-compared with the executable model. -/
+`verify_sign`: **for every seed, every message and arbitrary extendable-output functions** (only their output lengths
+are assumed), whenever the model's signing loop returns a signature, the model's verifier accepts it under the public
+key generated from the same seed; the sealed message opens to the message; the extracted parts are the detached
+signature and the message. Hypotheses: `XofLen` (the XOFs return as many bytes as asked), `Expanded seed` (the
+rejection-sampling loops of key generation filled their 256 coefficients — in the library they loop until they do;
+the model gives them 64 blocks), and that signing returned (termination of the rejection loop is a property of
+the XOF and is not provable; the run records that the real signer always returned).
+
+The proof (`Proofs/Dil*.lean`, `Proofs/Ntt*.lean`) follows the int32 values of the code: residues in `ZMod q` via
+the BitVec → field bridge with explicit growth bounds (no intermediate leaves int32), the CRT-tree NTT theorems
+(`INV ∘ NTT = NTT ∘ INV = 256`, linearity), the NTT-domain identity `A·z − c·t1·2^d = A·y − c·s2 + c·t0` for
+`t = A·s1 + s2 = t1·2^d + t0`, `z = y + c·s1`, then the coefficient lemma `coeff_hint_ok` (from the three accepting
+tests to `UseHint(…, MakeHint(…)) = w1`, on the generated scalar functions), the packing round trips of C13 for
+pk / sk / signature, and the hint-count bookkeeping. The `bv_decide` axioms of the packer lanes are inherited
+(listed in the evidence).
+
+`hint_recovers_w1` is the coefficient-level statement on integers; `seal_framing` … `open_some_iff` are the framing
+facts for arbitrary keys. -/
 namespace Qrl.C03
 open Qrl.Dil Gen.Dil
 
@@ -52,13 +65,52 @@ theorem open_some_iff (sm pk m : Bytes) :
       CryptoBytes ≤ sm.length ∧ verify shake128 shake256 (sm.take CryptoBytes) (sm.drop CryptoBytes) pk = true ∧ m = sm.drop CryptoBytes := by
   unfold openSealed
   by_cases h : sm.length < CryptoBytes
-  · simp [h]; omega
+  · simp [h] <;> omega
   · simp only [h, if_false]
     by_cases hv : verify shake128 shake256 (sm.take CryptoBytes) (sm.drop CryptoBytes) pk = true
     · simp [hv]; constructor
       · intro e; exact ⟨by omega, e.symm⟩
       · intro e; exact e.2.symm
     · simp [hv]
+
+end
+
+section
+variable (shake128 shake256 : Bytes → Nat → Bytes)
+
+/-- **`Verify(msg, Sign(msg), PK) = true`**, and the signature has the fixed size 4595 -/
+theorem verify_sign (hx : NttBridge.XofLen shake128 shake256) (seed msg : Bytes) (hE : NttBridge.Expanded shake128 shake256 seed)
+    (sig : Bytes) (ex : List Exit) (viol : List String)
+    (hs : signDetached shake128 shake256 {} (keypair shake128 shake256 seed).sk msg = some (sig, ex, viol)) :
+    verify shake128 shake256 sig msg (keypair shake128 shake256 seed).pk = true ∧ sig.length = CryptoBytes :=
+  NttBridge.verify_sign shake128 shake256 hx seed msg hE sig ex viol hs
+
+/-- the decidable form of `Expanded` which the driver evaluates on every seed of a run (`dl.filled`) -/
+theorem expanded_of_filled (seed : Bytes) (h : keygenFilled shake128 shake256 seed = true) : NttBridge.Expanded shake128 shake256 seed := by
+  unfold keygenFilled at h
+  simp only [Bool.and_eq_true, List.all_eq_true, beq_iff_eq, List.mem_range] at h
+  obtain ⟨⟨hm, h1⟩, h2⟩ := h
+  refine ⟨hm, ?_, ?_⟩
+  · intro p hp
+    simp only [NttBridge.kS1, List.mem_map, List.mem_range] at hp
+    obtain ⟨i, hi, rfl⟩ := hp
+    exact h1 i hi
+  · intro p hp
+    simp only [NttBridge.kS2, List.mem_map, List.mem_range] at hp
+    obtain ⟨i, hi, rfl⟩ := hp
+    exact h2 i hi
+
+/-- **`Open(Seal(msg), PK) = msg`, `ExtractSignature(Seal(msg)) = Sign(msg)`, `ExtractMessage(Seal(msg)) = msg`**,
+for every message including the empty one -/
+theorem open_seal (hx : NttBridge.XofLen shake128 shake256) (seed msg sm : Bytes) (hE : NttBridge.Expanded shake128 shake256 seed)
+    (hs : sealMsg shake128 shake256 (keypair shake128 shake256 seed).sk msg = some sm) :
+    openSealed shake128 shake256 sm (keypair shake128 shake256 seed).pk = some msg ∧
+    (∃ ex viol, signDetached shake128 shake256 {} (keypair shake128 shake256 seed).sk msg = some (extractSignature sm, ex, viol)) ∧
+    extractMessage sm = msg := by
+  obtain ⟨sig, ex, viol, hd, rfl⟩ := seal_framing shake128 shake256 _ msg sm hs
+  obtain ⟨hv, hl⟩ := verify_sign shake128 shake256 hx seed msg hE sig ex viol hd
+  obtain ⟨e1, e2⟩ := extract_of_seal sig msg hl
+  exact ⟨open_of_verify shake128 shake256 sig msg _ hl hv, ⟨ex, viol, by rw [e1]; exact hd⟩, e2⟩
 
 end
 
